@@ -220,3 +220,29 @@ static void tree_blocks_rec(const cbor_item_t* it, std::vector<const void*>& out
 void impl_tree_blocks(const cbor_item_t* it, std::vector<const void*>& out, std::vector<const cbor_item_t*>& nodes) {
   std::set<const cbor_item_t*> seen; tree_blocks_rec(it, out, nodes, seen);
 }
+
+uint64_t impl_observables_digest(const cbor_item_t* it) {
+  uint64_t h = hash_comb(0x0b5e, (uint64_t)cbor_typeof(it));
+  switch (cbor_typeof(it)) {
+    case CBOR_TYPE_UINT: case CBOR_TYPE_NEGINT: h = hash_comb(h, (uint64_t)cbor_int_get_width(it)); h = hash_comb(h, cbor_get_int(it)); break;
+    case CBOR_TYPE_BYTESTRING:
+      h = hash_comb(h, cbor_bytestring_is_definite(it));
+      if (cbor_bytestring_is_definite(it)) { h = hash_comb(h, cbor_bytestring_length(it)); h = hash_comb(h, hash_bytes(cbor_bytestring_handle(it), cbor_bytestring_length(it))); }
+      else { size_t n = cbor_bytestring_chunk_count(it); h = hash_comb(h, n); cbor_item_t** c = cbor_bytestring_chunks_handle(it); for (size_t i = 0; i < n; i++) h = hash_comb(h, impl_observables_digest(c[i])); }
+      break;
+    case CBOR_TYPE_STRING:
+      h = hash_comb(h, cbor_string_is_definite(it));
+      if (cbor_string_is_definite(it)) { h = hash_comb(h, cbor_string_length(it)); h = hash_comb(h, cbor_string_codepoint_count(it)); h = hash_comb(h, hash_bytes(cbor_string_handle(it), cbor_string_length(it))); }
+      else { size_t n = cbor_string_chunk_count(it); h = hash_comb(h, n); cbor_item_t** c = cbor_string_chunks_handle(it); for (size_t i = 0; i < n; i++) h = hash_comb(h, impl_observables_digest(c[i])); }
+      break;
+    case CBOR_TYPE_ARRAY: { h = hash_comb(h, cbor_array_is_definite(it)); size_t n = cbor_array_size(it); h = hash_comb(h, n); cbor_item_t** c = cbor_array_handle(it); for (size_t i = 0; i < n; i++) h = hash_comb(h, impl_observables_digest(c[i])); break; }
+    case CBOR_TYPE_MAP: { h = hash_comb(h, cbor_map_is_definite(it)); size_t n = cbor_map_size(it); h = hash_comb(h, n); struct cbor_pair* c = cbor_map_handle(it); for (size_t i = 0; i < n; i++) { h = hash_comb(h, impl_observables_digest(c[i].key)); h = hash_comb(h, impl_observables_digest(c[i].value)); } break; }
+    case CBOR_TYPE_TAG: { h = hash_comb(h, cbor_tag_value(it)); cbor_item_t* t = it->metadata.tag_metadata.tagged_item; h = hash_comb(h, t ? impl_observables_digest(t) : 0); break; }
+    case CBOR_TYPE_FLOAT_CTRL:
+      h = hash_comb(h, (uint64_t)cbor_float_get_width(it));
+      if (cbor_float_ctrl_is_ctrl(it)) h = hash_comb(h, cbor_ctrl_value(it));
+      else { double d = cbor_float_get_float(it); h = hash_comb(h, d != d ? 1 : d2u(d)); }
+      break;
+  }
+  return h;
+}
